@@ -9,7 +9,10 @@ Transcribes pysph/tools/interpolator.py :
   ('order1', with pysph/sph/basic_equations.py SummationDensity in front), and
   Interpolator.__init__/set_interpolation_points/update_particle_arrays/update/
   interpolate together with SPHEvaluator.update_particle_arrays/update
-  (pysph/tools/sph_evaluator.py) as a state machine over object identities.
+  (pysph/tools/sph_evaluator.py) as a state machine over object identities,
+  and the staging loop of `Interpolator.interpolate` (requested property ->
+  `temp_prop` of every source array, `0.0` for an array without the property)
+  over histories that include earlier `interpolate` calls (end of this file).
 
 The compiled evaluator (acceleration_eval_cython.mako) runs, for one group and
 one destination particle: `initialize`, then for every source array in the order
